@@ -99,6 +99,9 @@ Section Eval.
     then run_stepwise UNIV (tb_parses t) (tb_perr t) o_fdiags o_areport (tb_nonagg t) (tb_agg t) fx FUEL (c_events c) (m_init c)
     else run_burst UNIV (tb_parses t) (tb_perr t) o_fdiags o_areport (tb_nonagg t) (tb_agg t) fx FUEL (c_events c) (m_init c).
 
+  Definition m_racy (fx : fixes) (c : c15_case) : option state :=
+    run_racy UNIV (tb_parses t) (tb_perr t) o_fdiags o_areport (tb_nonagg t) (tb_agg t) fx FUEL (c_events c) (m_init c).
+
   Definition m_fresh (s : state) (u : uri) : list diag :=
     fresh UNIV (tb_parses t) (tb_perr t) o_fdiags o_areport (contents s) (conf s) u.
 End Eval.
@@ -141,7 +144,8 @@ Definition agrees_model (t : tables) (c : c15_case) : bool :=
   if c_step c then same_on_univ (obs_of (c_pub c)) (pub_of sw)
   else same_on_univ (obs_of (c_pub c)) (obs_of (c_fresh c))
        || same_on_univ (obs_of (c_pub c)) (pub_of sw)
-       || same_on_univ (obs_of (c_pub c)) (pub_of (m_final t false current false c)).
+       || same_on_univ (obs_of (c_pub c)) (pub_of (m_final t false current false c))
+       || same_on_univ (obs_of (c_pub c)) (pub_of (m_racy t false current c)).
 
 (* the reference computed by the harness = the model's [fresh] on the oracle tables *)
 Definition agrees_fresh (t : tables) (c : c15_case) : bool :=
@@ -163,7 +167,12 @@ Definition attribution (t : tables) (c : c15_case) : N :=
   let base := pub_of (m_final t false current (c_step c) c) in
   let bit (i : nat) (w : N) := if same_on_univ base (pub_of (m_final t false (with_repair i) (c_step c) c)) then 0 else w in
   let allr := m_final t false all_repaired (c_step c) c in
-  bit 0%nat 1 + bit 1%nat 2 + bit 2%nat 4 + bit 3%nat 8
+  let racy :=
+    if c_step c then 0
+    else if same_on_univ (obs_of (c_pub c)) (pub_of (m_final t false current true c))
+            || same_on_univ (obs_of (c_pub c)) (pub_of (m_final t false current false c)) then 0
+    else if same_on_univ (obs_of (c_pub c)) (pub_of (m_racy t false current c)) then 16 else 0 in
+  bit 0%nat 1 + bit 1%nat 2 + bit 2%nat 4 + bit 3%nat 8 + racy
   + (if same_on_univ (pub_of allr) (fresh_of t allr) then 0 else 64).
 
 (* ---- phase 1: which oracle keys do the predictions depend on ---- *)
@@ -177,7 +186,7 @@ Definition markers_of (t : tables) (os : option state) : list N :=
 
 Definition keys_of_case (t : tables) (diverged : bool) (c : c15_case) : list N :=
   markers_of t (m_final t true current true c)
-  ++ (if c_step c then [] else markers_of t (m_final t true current false c))
+  ++ (if c_step c then [] else markers_of t (m_final t true current false c) ++ markers_of t (m_racy t true current c))
   ++ (if diverged
       then flat_map (fun fx => markers_of t (m_final t true fx (c_step c) c))
              [with_repair 0; with_repair 1; with_repair 2; with_repair 3; all_repaired]
